@@ -79,11 +79,12 @@ def judge(text, token, start, mask, case, sigbase):
 def body(rep, case, sub="grid"):
     Days, tools = _lib()
     zname = case["zone"]
-    y, mo, d, h, mi, s = case["now"]
+    y, mo, d, h, mi, s = case["now"][:6]
+    micro = case["now"][6] if len(case["now"]) > 6 else 0
     mask, start_min = case["mask"], case["start"]
     days = {x for x in Days if mask & x.bit_rep}
     start = hhmm(start_min)
-    with vclock.frozen(zname, y, mo, d, h, mi, s) as dest:
+    with vclock.frozen(zname, y, mo, d, h, mi, s, micro=micro) as dest:
         weekday = dt.date(y, mo, d).weekday()
         utc_wd = dest.astimezone(vclock.UTC).weekday()
         now_min = h * 60 + mi
@@ -96,7 +97,7 @@ def body(rep, case, sub="grid"):
         if utc_wd != weekday:
             labels.append("local-weekday!=utc-weekday")
         labels.append("expect-" + token.split()[0])
-        rep.tick(sub, key=(zname, y, mo, d, h, mi, s, mask, start_min), nontrivial=nt, sample=case, labels=labels)
+        rep.tick(sub, key=(zname, y, mo, d, h, mi, s, micro, mask, start_min), nontrivial=nt, sample=case, labels=labels)
         forms = [("set", days)]
         if mask and case.get("forms"):
             forms.append(("frozenset", frozenset(days)))
@@ -189,6 +190,53 @@ def strat_repoll():
                      st.one_of(st.integers(1, 180), st.integers(1, 8 * 1440)), st.integers(1, 127), st.integers(0, 1439))
 
 
+def cases_dst_midnight(tier):
+    """Local clocks in the hour before / after midnight on the day before / of / after a UTC-offset change: 'tomorrow' is
+    the next *calendar* day, not 'in 24 hours'."""
+    def gen_cases():
+        out = []
+        zones = ["America/New_York", "Asia/Jerusalem", "Europe/London", "Australia/Lord_Howe", "America/Havana", "America/Sao_Paulo"]
+        for z in zones:
+            trans = [t for t in vclock.transition_days(z) if (2023 <= t.year <= 2025 if tier != "thorough" else 2015 <= t.year <= 2030)]
+            for t in trans:
+                for delta in (-1, 0, 1):
+                    day = t + dt.timedelta(days=delta)
+                    for (h, mi, s) in ((23, 0, 0), (23, 30, 30), (23, 59, 59), (0, 0, 0), (0, 30, 0), (0, 59, 30), (1, 30, 0), (2, 30, 0)):
+                        out.append({"zone": z, "day": [day.year, day.month, day.day], "hms": [h, mi, s]})
+        return out
+    return gen_cases
+
+
+def body_dst_midnight(rep, case):
+    if "mask" in case:
+        return body_random(rep, case)
+    y, mo, d = case["day"]
+    h, mi, s = case["hms"]
+    z = vclock.zone(case["zone"])
+    naive = dt.datetime(y, mo, d, h, mi, s)
+    if dt.datetime.fromtimestamp(naive.replace(tzinfo=z).timestamp(), z).replace(tzinfo=None) != naive:
+        rep.label("now-in-dst-gap-skipped")
+        return
+    for mask in range(2, 256, 2):
+        for start in (10, 12 * 60, 23 * 60 + 50):
+            if (mask + start) % 3 and bin(mask).count("1") > 2:
+                continue
+            body(rep, {"zone": case["zone"], "now": [y, mo, d, h, mi, s], "mask": mask, "start": start}, "dst-midnight")
+
+
+def strat_subsecond():
+    """The clock a fraction of a second before (or after) the start minute: still ahead means still 'today'."""
+    def mk(z, day, start, before, micro, mask_extra):
+        t = dt.datetime(day.year, day.month, day.day, start // 60, start % 60) - dt.timedelta(seconds=1 if before else 0)
+        if not before:
+            micro = micro % 400_000
+        wd = dt.date(t.year, t.month, t.day).weekday()
+        mask = (1 << (wd + 1)) | (mask_extra * 2)
+        return {"zone": z, "now": [t.year, t.month, t.day, t.hour, t.minute, t.second, micro], "mask": mask & 0xFE, "start": start}
+    return st.builds(mk, st.sampled_from(["UTC", "America/New_York", "Asia/Jerusalem"]), st.dates(dt.date(2024, 1, 8), dt.date(2024, 2, 20)),
+                     st.integers(1, 1439), st.booleans(), st.integers(1, 999_999), st.integers(0, 127))
+
+
 def strat_random():
     return st.builds(
         lambda z, day, now_s, mask, start, via: {
@@ -217,5 +265,8 @@ def subchecks(tier):
     return [
         Sub("grid", body_grid, cases=cases_grid(tier), shards=16, exhaustive=True),
         Sub("random", body_random, strategy=strat_random, n=400_000 if big else 4000, shards=16 if big else 4),
+        Sub("dst-midnight", body_dst_midnight, cases=cases_dst_midnight(tier), shards=16, exhaustive=True),
+        Sub("subsecond", lambda rep, case: body(rep, case, "subsecond"), strategy=strat_subsecond, n=60_000 if big else 1500,
+            shards=8 if big else 2),
         Sub("repoll", body_repoll, strategy=strat_repoll, n=100_000 if big else 2500, shards=16 if big else 4),
     ]
